@@ -69,9 +69,6 @@ def make_judges(ctx):
             if not _pyint_carrier(si.carrier):
                 ctx.skip('store:wide word with a non Python-integer carrier')
                 return
-            if isinstance(si.carrier, (list, tuple)) and np.array(si.carrier).dtype.kind == 'f':
-                ctx.skip('store:mixed integer list that NumPy itself promotes to float64 (DESIGN 3.13)')
-                return
         else:
             if any(abs(v) >= 2 ** 53 or abs(x) >= 2 ** 62 for v, x in zip(si.values, xs)):
                 ctx.skip('store:input magnitude outside the core domain')
